@@ -341,7 +341,7 @@ func (enc *encryptInfo) AsDict(version Version) (Dict, error) {
 }
 
 // EncryptBytes encrypts the bytes in buf using Algorithm 1 in the PDF spec.
-// This function modfies the contents of buf and may return buf.
+// The contents of buf are not modified.
 func (enc *encryptInfo) EncryptBytes(ref Reference, buf []byte) ([]byte, error) {
 	cf := enc.strF
 	if cf == nil {
@@ -382,8 +382,10 @@ func (enc *encryptInfo) EncryptBytes(ref Reference, buf []byte) ([]byte, error) 
 		if err != nil {
 			return nil, err
 		}
-		c.XORKeyStream(buf, buf)
-		return buf, nil
+		// do not encrypt in place: buf is owned by the caller
+		out := make([]byte, len(buf))
+		c.XORKeyStream(out, buf)
+		return out, nil
 	default:
 		panic("unknown cipher")
 	}
